@@ -1,15 +1,194 @@
-(* C15 - ORDER BY, LIMIT, OFFSET and DISTINCT are exact.  Property theorems only. *)
-From Coq Require Import ZArith List Bool.
-From TV Require Import Model.KnnOrder.
+(* C15 - ORDER BY, LIMIT, OFFSET and DISTINCT are exact.  Property theorems only.
+   Reference semantics: Model/SortSpec.v (+ Model/SortQuery.v for the query fragment), on top of
+   the shared Model/SqlSpec.v.  Implementation model: Model/SortImpl.v (hand-written; tied to
+   /repo by the correspondence run of harness/src/bin/c15.rs against Corr/C15.v). *)
+From Coq Require Import ZArith List Bool Permutation Sorted.
+From TV Require Import Model.KnnOrder Proof.KnnOrder.
 From TV Require Import Model.SqlSpec Model.SortSpec Model.SortQuery Model.SortImpl.
-From TV Require Import Proof.SortLimit.
+From TV Require Import Proof.SortOrder Proof.SortLimit Proof.SortWindow Proof.SortResult
+                       Proof.SortKeys Proof.SortModel Proof.SortRefute.
 Import ListNotations.
 
-(* the LIMIT / OFFSET state machine returns exactly the window, for every offset, limit, stream *)
+(* ------------------------------------------------------------------ the order *)
+(* the reference key order (any list of keys, any directions) is a total preorder *)
+Theorem key_order_total_preorder : forall dirs, cmp_total_preorder (elt_cmp dirs).
+Proof. exact elt_cmp_preorder_l. Qed.
+
+(* NULL comes before every non-NULL value ascending and after it descending; DESC = reverse *)
+Theorem null_first_asc_last_desc : forall v, v <> VNull ->
+  dir_cmp true VNull v = Lt /\ dir_cmp false v VNull = Lt /\ dir_cmp true VNull VNull = Eq.
+Proof. exact null_first_l. Qed.
+Theorem desc_is_reverse : forall a b, dir_cmp false a b = CompOpp (dir_cmp true a b).
+Proof. exact desc_is_reverse_l. Qed.
+
+(* on values of one type the reference order is the comparison of the shared SQL semantics *)
+Theorem key_order_is_sql_comparison : forall a b,
+  a <> VNull -> b <> VNull -> vclass_ok a = true -> vclass_ok b = true -> same_class a b = true ->
+  cmp_values a b = Some (Some (sort_cmp a b)).
+Proof. exact sort_cmp_is_cmp_values_l. Qed.
+
+(* the implementation's comparators: on NULLs and values of one type (no NaN) each of them IS the
+   reference order -- hence a total preorder with NULL first on every same-type key column *)
+Theorem compare_for_sort_correct : forall a b, comparable a b -> compare_for_sort a b = sort_cmp a b.
+Proof. exact compare_for_sort_agrees_l. Qed.
+Theorem compare_owned_values_correct : forall a b, comparable a b -> compare_owned a b = sort_cmp a b.
+Proof. exact compare_owned_agrees_l. Qed.
+Theorem sort_executor_compare_correct : forall a b, comparable a b -> not_bool a -> not_bool b ->
+  sort_exec_compare a b = sort_cmp a b.
+Proof. exact sort_exec_compare_agrees_l. Qed.
+Theorem cmp_total_preorder_same_type : forall (vcmp : value -> value -> comparison) (S : value -> Prop),
+  (forall a b, S a -> S b -> vcmp a b = sort_cmp a b) ->
+  (forall a b, S a -> S b -> vcmp b a = CompOpp (vcmp a b)) /\
+  (forall a b c, S a -> S b -> S c -> vcmp a b <> Gt -> vcmp b c <> Gt -> vcmp a c <> Gt).
+Proof. exact cmp_total_preorder_on_l. Qed.
+(* the closure handed to sort_by / the TopK heap = the reference lexicographic order, on the
+   elements of any bag whose key columns are homogeneous *)
+Theorem sort_closure_correct : forall dirs (B : list elt) x y,
+  keys_homog (length dirs) (map fst B) = true -> In x B -> In y B ->
+  impl_elt_cmp dirs x y = elt_cmp dirs x y.
+Proof. exact impl_elt_cmp_agrees_l. Qed.
+
+(* ... and they are NOT transitive beyond that: `_ => Ordering::Equal` on mixed types
+   (compare_owned_values, SortExecutor::compare_values), unwrap_or(Equal) on a NaN key *)
+Theorem compare_owned_values_mixed_refuted :
+  exists a b c, compare_owned a b <> Gt /\ compare_owned b c <> Gt /\ compare_owned a c = Gt.
+Proof. exact compare_owned_mixed_refuted_l. Qed.
+Theorem sort_executor_compare_mixed_refuted :
+  exists a b c, sort_exec_compare a b <> Gt /\ sort_exec_compare b c <> Gt /\ sort_exec_compare a c = Gt.
+Proof. exact sort_exec_compare_mixed_refuted_l. Qed.
+Theorem compare_for_sort_nan_refuted :
+  exists a b c, compare_for_sort a b <> Gt /\ compare_for_sort b c <> Gt /\ compare_for_sort a c = Gt.
+Proof. exact compare_for_sort_nan_refuted_l. Qed.
+
+(* ------------------------------------------------------------------ LIMIT / OFFSET *)
+(* the two-counter state machine returns exactly the window, for every offset, limit, stream *)
 Theorem limit_machine_is_window :
   forall (A : Type) (lim : option nat) (off : nat) (xs : list A), limit_exec lim off xs = window off lim xs.
 Proof. exact (@limit_machine_is_window_l). Qed.
 
+(* ORDER BY .. LIMIT l OFFSET o through the heap of l+o rows (TopK) is a window of a sorted
+   arrangement, for every l, o and input *)
+Theorem topk_is_window : forall dirs (B out : list elt) o l,
+  topk (elt_cmp dirs) (l + o) B = TOk out ->
+  rows_spec (elt_cmp dirs) snd false B o (Some l) (map snd (firstn l (skipn o out))).
+Proof. exact spec_of_topk. Qed.
+
+(* ------------------------------------------------------------------ DISTINCT *)
+(* first occurrences: every distinct row exactly once, nothing invented *)
+Theorem distinct_each_row_once : forall (B : list elt),
+  NoDup (map snd (dedupe snd row_eqb [] B)) /\
+  (forall e, In e (dedupe snd row_eqb [] B) -> In e B) /\
+  (forall e, In e B -> In (snd e) (map snd (dedupe snd row_eqb [] B))).
+Proof. exact (dedupe_distinct_l snd row_eqb row_eqb_spec). Qed.
+
+(* ------------------------------------------------------------------ the checker used on the real output *)
+(* whatever it accepts is the window of a sorted arrangement (no side condition) ... *)
+Theorem checker_sound : forall dirs distinct B o l rows,
+  result_chk dirs distinct B o l rows = true -> result_spec dirs distinct B o l rows.
+Proof. exact result_chk_sound_l. Qed.
+(* ... and wherever the property makes a demand it accepts every right answer (ties in any order) *)
+Theorem checker_decides_property : forall dirs distinct B o l rows,
+  result_defined dirs distinct B = true ->
+  (result_chk dirs distinct B o l rows = true <-> result_spec dirs distinct B o l rows).
+Proof. exact result_chk_iff_spec_l. Qed.
+(* ORDER BY alone: accepted = a permutation of the selected rows sorted by the keys *)
+Theorem checker_order_by : forall dirs B rows,
+  result_chk dirs false B 0 None rows = true ->
+  exists S, Permutation S (map norm_elt B) /\ sorted_by (elt_cmp dirs) S /\ map norm_row rows = map snd S.
+Proof. exact order_by_chk_l. Qed.
+
+(* ------------------------------------------------------------------ end to end on the model *)
+(* every table, every query of the fragment outside the recorded finding classes: the rows the
+   implementation model returns satisfy the property *)
+Theorem model_meets_spec : forall ncols q t rows,
+  known_class_case ncols q t = 0%Z ->
+  model_query ncols q t = MRows rows ->
+  query_spec ncols q t rows.
+Proof. exact model_meets_spec_l. Qed.
+
+(* each recorded class contains a query that the faithful model answers wrongly *)
+Theorem known_classes_refuted :
+  refuted 1 /\ refuted 2 /\ refuted 3 /\ refuted 4 /\ refuted 5 /\ refuted 6 /\ refuted 7.
+Proof. exact known_classes_refuted_l. Qed.
+
+(* non-vacuity: class 0 contains multi-key ORDER BY with DESC, LIMIT / OFFSET, DISTINCT with an
+   alias key over NULLs and duplicates; the hypotheses of the comparator theorems are met *)
+Example c15_witness :
+  known_class_case 3 (mkQ false (SelList [SI 0 false; SI 1 false]) None [(KCol 1 false, false); (KCol 0 false, true)] (Some 3) (Some 1)) wt = 0%Z /\
+  model_query 3 (mkQ false (SelList [SI 0 false; SI 1 false]) None [(KCol 1 false, false); (KCol 0 false, true)] (Some 3) (Some 1)) wt
+    = MRows [[VInt 4; VInt 3]; [VInt 5; VInt 2]; [VInt 3; VInt 1]] /\
+  comparable VNull (VInt 3) /\ comparable (VText [97]) (VText [98]) /\
+  keys_homog 1 [[VInt 3]; [VNull]; [VInt 1]] = true /\
+  result_defined [false; true] false [([VInt 3; VInt 1], [VInt 1; VInt 3]); ([VNull; VInt 2], [VInt 2; VNull])] = true /\
+  result_chk [true] false [([VInt 3], [VInt 1]); ([VNull], [VInt 2]); ([VInt 3], [VInt 4])] 1 (Some 1%nat) [[VInt 4]] = true /\
+  result_chk [true] false [([VInt 3], [VInt 1]); ([VNull], [VInt 2]); ([VInt 3], [VInt 4])] 1 (Some 1%nat) [[VInt 2]] = false.
+Proof. vm_compute. repeat split. Qed.
+
+Check key_order_total_preorder : forall dirs, cmp_total_preorder (elt_cmp dirs).
+Check null_first_asc_last_desc : forall v, v <> VNull ->
+  dir_cmp true VNull v = Lt /\ dir_cmp false v VNull = Lt /\ dir_cmp true VNull VNull = Eq.
+Check desc_is_reverse : forall a b, dir_cmp false a b = CompOpp (dir_cmp true a b).
+Check key_order_is_sql_comparison : forall a b,
+  a <> VNull -> b <> VNull -> vclass_ok a = true -> vclass_ok b = true -> same_class a b = true ->
+  cmp_values a b = Some (Some (sort_cmp a b)).
+Check compare_for_sort_correct : forall a b, comparable a b -> compare_for_sort a b = sort_cmp a b.
+Check compare_owned_values_correct : forall a b, comparable a b -> compare_owned a b = sort_cmp a b.
+Check sort_executor_compare_correct : forall a b, comparable a b -> not_bool a -> not_bool b ->
+  sort_exec_compare a b = sort_cmp a b.
+Check cmp_total_preorder_same_type : forall (vcmp : value -> value -> comparison) (S : value -> Prop),
+  (forall a b, S a -> S b -> vcmp a b = sort_cmp a b) ->
+  (forall a b, S a -> S b -> vcmp b a = CompOpp (vcmp a b)) /\
+  (forall a b c, S a -> S b -> S c -> vcmp a b <> Gt -> vcmp b c <> Gt -> vcmp a c <> Gt).
+Check sort_closure_correct : forall dirs (B : list elt) x y,
+  keys_homog (length dirs) (map fst B) = true -> In x B -> In y B ->
+  impl_elt_cmp dirs x y = elt_cmp dirs x y.
+Check compare_owned_values_mixed_refuted :
+  exists a b c, compare_owned a b <> Gt /\ compare_owned b c <> Gt /\ compare_owned a c = Gt.
+Check sort_executor_compare_mixed_refuted :
+  exists a b c, sort_exec_compare a b <> Gt /\ sort_exec_compare b c <> Gt /\ sort_exec_compare a c = Gt.
+Check compare_for_sort_nan_refuted :
+  exists a b c, compare_for_sort a b <> Gt /\ compare_for_sort b c <> Gt /\ compare_for_sort a c = Gt.
 Check limit_machine_is_window :
   forall (A : Type) (lim : option nat) (off : nat) (xs : list A), limit_exec lim off xs = window off lim xs.
+Check topk_is_window : forall dirs (B out : list elt) o l,
+  topk (elt_cmp dirs) (l + o) B = TOk out ->
+  rows_spec (elt_cmp dirs) snd false B o (Some l) (map snd (firstn l (skipn o out))).
+Check distinct_each_row_once : forall (B : list elt),
+  NoDup (map snd (dedupe snd row_eqb [] B)) /\
+  (forall e, In e (dedupe snd row_eqb [] B) -> In e B) /\
+  (forall e, In e B -> In (snd e) (map snd (dedupe snd row_eqb [] B))).
+Check checker_sound : forall dirs distinct B o l rows,
+  result_chk dirs distinct B o l rows = true -> result_spec dirs distinct B o l rows.
+Check checker_decides_property : forall dirs distinct B o l rows,
+  result_defined dirs distinct B = true ->
+  (result_chk dirs distinct B o l rows = true <-> result_spec dirs distinct B o l rows).
+Check checker_order_by : forall dirs B rows,
+  result_chk dirs false B 0 None rows = true ->
+  exists S, Permutation S (map norm_elt B) /\ sorted_by (elt_cmp dirs) S /\ map norm_row rows = map snd S.
+Check model_meets_spec : forall ncols q t rows,
+  known_class_case ncols q t = 0%Z ->
+  model_query ncols q t = MRows rows ->
+  query_spec ncols q t rows.
+Check known_classes_refuted :
+  refuted 1 /\ refuted 2 /\ refuted 3 /\ refuted 4 /\ refuted 5 /\ refuted 6 /\ refuted 7.
+
+Print Assumptions key_order_total_preorder.
+Print Assumptions null_first_asc_last_desc.
+Print Assumptions desc_is_reverse.
+Print Assumptions key_order_is_sql_comparison.
+Print Assumptions compare_for_sort_correct.
+Print Assumptions compare_owned_values_correct.
+Print Assumptions sort_executor_compare_correct.
+Print Assumptions cmp_total_preorder_same_type.
+Print Assumptions sort_closure_correct.
+Print Assumptions compare_owned_values_mixed_refuted.
+Print Assumptions sort_executor_compare_mixed_refuted.
+Print Assumptions compare_for_sort_nan_refuted.
 Print Assumptions limit_machine_is_window.
+Print Assumptions topk_is_window.
+Print Assumptions distinct_each_row_once.
+Print Assumptions checker_sound.
+Print Assumptions checker_decides_property.
+Print Assumptions checker_order_by.
+Print Assumptions model_meets_spec.
+Print Assumptions known_classes_refuted.
